@@ -41,6 +41,7 @@ inline std::string gen_name(Tape& t)
     default:
     {
         std::uint64_t const k = t.range(0, 9);
+        if (k == 6) { return "#jets (a name that starts like a comment line)"; }
         if (k == 7) { return "tab\tinside"; }
         if (k == 8) { return "ends with a carriage return\r"; }
         if (k == 9) { return "\x01 control \x1b[1m and high bytes \xc3\xa9\x7f"; }
